@@ -322,3 +322,22 @@ impl Prop for C18 {
         vec!["concurrent", "seq:grow+keep", "race-rounds"]
     }
 }
+
+/// Fuzz decoder (sequential part only: the concurrent parts are not deterministic functions of the input).
+pub fn decode(u: &mut arbitrary::Unstructured) -> arbitrary::Result<Value> {
+    let init = u.int_in_range(0..=POOL - 1)?;
+    let n = u.int_in_range(0..=60)?;
+    let mut ops = Vec::new();
+    for _ in 0..n {
+        let i = u.int_in_range(0..=POOL - 1)?;
+        ops.push(match u.int_in_range(0..=5)? {
+            0 => Op::RUpdate(i),
+            1 => Op::AUpdate(i),
+            2 => Op::FetchMax(i),
+            3 => Op::Swap(i),
+            4 => Op::Store(i),
+            _ => Op::Load,
+        });
+    }
+    Ok(to_case(&Case { init, ops, threads: Vec::new(), races: Vec::new() }))
+}
